@@ -29,6 +29,9 @@ def clampq(x, scale, hi=2 * 10**9):
 # ------------------------------------------------------------------------------ models
 
 
+N_COND = [50000]     # size of the conditional samples (quick: 25000; the DKW radius follows the size)
+
+
 def fitted_models(vc, rng, n_random):
     data = vc.read_ec_benchmark_dataset(str(REPO / "datasets" / "ec-benchmark_dataset_A_1year.txt")).values
     out = []
@@ -314,7 +317,7 @@ def rec_cond(vc, rid, name, base, tr, q, rng):
     except Exception:
         _verif = None
     try:
-        n = 50000
+        n = N_COND[0]
         seed = int(rng.integers(0, 2**31))
         with warnings.catch_warnings():
             warnings.simplefilter("ignore")
@@ -385,7 +388,7 @@ def rec_cond_dim0(vc, rid, name, base, tr, tz, rng):
         cum = np.concatenate([[0.0], np.cumsum(0.5 * (f[1:] + f[:-1]) * np.diff(g))])
         tot = cum[-1]
         F = lambda z: np.interp(np.asarray(z, dtype=float), g, cum / tot)  # noqa
-        n = 50000
+        n = N_COND[0]
         seed = int(rng.integers(0, 2**31))
         with warnings.catch_warnings():
             warnings.simplefilter("ignore")
@@ -545,6 +548,7 @@ def run(ctx):
     ctx.model_check("Transformed", "MC_Transformed_mut.cfg", expect_violation="Reproducible")
     ctx.model_check("Transformed", "MC_Transformed_cache.cfg", expect_violation="Reproducible")
 
+    N_COND[0] = ctx.pick(25000, 50000)
     models = fitted_models(vc, rng, ctx.pick(2, 8))
     recs = []
     rid = [0]
@@ -590,14 +594,16 @@ def run(ctx):
     for hi, h in enumerate(hists):
         for r in recs_cache_history(vc, nid, ["get_Nonzero_EW_Hs_S", "get_Windmeier_EW_Hs_S"][(hi + ctx.seed) % 2], h, rng):
             add(r)
-    qs = ctx.pick([0.5, 0.9, 0.99, 0.999, 0.9999], [0.1, 0.5, 0.9, 0.99, 0.999, 0.9999, 0.99999])
+    qs = ctx.pick([0.5, 0.99, 0.9999], [0.1, 0.5, 0.9, 0.99, 0.999, 0.9999, 0.99999])
     for mi, (name, base, tr) in enumerate(models[:ctx.pick(2, 6)]):
         # quick: the full quantile ladder for the first model, the two ends for the second
-        for q in (qs if (mi == 0 or not ctx.quick) else [qs[0], qs[-1]]):
+        for q in (qs if (mi == 0 or not ctx.quick) else [qs[-1]]):
             add(rec_cond(vc, nid(), name, base, tr, q, rng))
     for name, base, tr, q in narrow_models(vc, rng, ctx.pick(0, 16)):
         add(rec_cond(vc, nid(), name, base, tr, q, rng))
-    for name, base, tr, tz in bimodal_cases(vc):
+    for bi, (name, base, tr, tz) in enumerate(bimodal_cases(vc)):
+        if ctx.quick and bi == 3:
+            continue            # quick: one short-period record
         add(rec_cond_dim0(vc, nid(), name, base, tr, tz, rng))
     # beyond the 1 - 1e-7 quantile the whole joint-density profile lies below the former absolute threshold (D77)
     for name, base, tr in models[:ctx.pick(1, 2)]:
